@@ -6,6 +6,7 @@ package c17
 import (
 	"encoding/json"
 	"fmt"
+	"strings"
 
 	"gopkg.in/typ.v4/sync2"
 
@@ -20,6 +21,7 @@ type Caller struct {
 	Inner int  `json:"inner"`           // scheduling points inside this caller's function
 	Again int  `json:"again"`           // extra Do calls afterwards by the same task
 	Panic bool `json:"panic,omitempty"` // fault: this caller's function panics instead of returning
+	Nil   bool `json:"nil,omitempty"`   // this caller passes a nil function
 }
 
 // Scenario is a set of callers of one OnceN value.
@@ -72,6 +74,9 @@ func (H) Generate(r *simrt.Rand, tier string) any {
 		if r.Intn(8) == 0 {
 			c.Panic = true
 		}
+		if r.Intn(10) == 0 {
+			c.Nil = true
+		}
 		s.Callers = append(s.Callers, c)
 	}
 	return s
@@ -90,9 +95,9 @@ func (H) Shrink(sc any) []any {
 		out = append(out, c)
 	}
 	for i, cl := range s.Callers {
-		if cl.Panic {
+		if cl.Panic || cl.Nil {
 			c := &Scenario{N: s.N, Iface: s.Iface, Callers: append([]Caller(nil), s.Callers...)}
-			c.Callers[i].Panic = false
+			c.Callers[i].Panic, c.Callers[i].Nil = false, false
 			out = append(out, c)
 		}
 		if cl.Delay > 0 || cl.Inner > 0 || cl.Again > 0 {
@@ -137,7 +142,8 @@ func (H) Execute(scAny any, cfg simrt.Config, st *core.Stats) (*simrt.Outcome, *
 	var o2 sync2.Once2[int, int]
 	var o3 sync2.Once3[int, int, int]
 	invoked := make([]int, len(sc.Callers)) // per function: each slot written by the task that runs it
-	effect := 0                             // plain: written as the last statement of the action
+	nilInvoked := make([]int, len(sc.Callers))
+	effect := 0 // plain: written as the last statement of the action
 	var results [][]result
 	for range sc.Callers {
 		results = append(results, nil)
@@ -172,12 +178,28 @@ func (H) Execute(scAny any, cfg simrt.Config, st *core.Stats) (*simrt.Outcome, *
 						defer func() {
 							if p := recover(); p != nil {
 								if _, ours := p.(actionPanic); !ours {
-									panic(p)
+									if e, isErr := p.(error); !(c.Nil && isErr && strings.Contains(e.Error(), "nil pointer dereference")) {
+										panic(p)
+									}
+									// this caller's nil function was the one chosen: the invocation panics
+									nilInvoked[i]++
 								}
 								res.panicked = true
 							}
 						}()
 						switch {
+						case c.Nil && sc.N == 1 && sc.Iface:
+							got := oi.Do(nil)
+							res.r[0] = (winnerOf(invoked)+1)*10 + 1
+							if got != nil {
+								res.r[0] = -1
+							}
+						case c.Nil && sc.N == 1:
+							res.r[0] = o1.Do(nil)
+						case c.Nil && sc.N == 2:
+							res.r[0], res.r[1] = o2.Do(nil)
+						case c.Nil && sc.N == 3:
+							res.r[0], res.r[1], res.r[2] = o3.Do(nil)
 						case sc.N == 1 && sc.Iface:
 							got := oi.Do(func() any { body(); return nil })
 							res.r[0] = (winnerOf(invoked)+1)*10 + 1 // nil is the only possible value: encode "as expected"
@@ -216,6 +238,18 @@ func (H) Execute(scAny any, cfg simrt.Config, st *core.Stats) (*simrt.Outcome, *
 		if n > 0 {
 			winner = i
 		}
+	}
+	nilTotal := 0
+	for _, n := range nilInvoked {
+		nilTotal += n
+	}
+	if nilTotal > 0 {
+		// a nil function was the one invoked (and panicked): it counts as the one
+		// invocation, and there are no values to share
+		if total+nilTotal != 1 {
+			return out, &core.Violation{Signature: "invocations!=1", Detail: fmt.Sprintf("%d function invocations in total, %d of them of a nil function (per caller: %v / %v)", total+nilTotal, nilTotal, invoked, nilInvoked)}
+		}
+		return out, nil
 	}
 	if total != 1 {
 		return out, &core.Violation{Signature: "invocations!=1", Detail: fmt.Sprintf("%d function invocations in total (per caller: %v)", total, invoked)}
